@@ -237,13 +237,22 @@ theorem getAt_ofList (xs : List Nat) (i : Nat) (m : Mem) :
   rw [getNodeAt_ofList]
   by_cases h : i < xs.length <;> simp [h, Ptr.valid, data_some]
 
-theorem contains_ofList (xs : List Nat) (x : Nat) : contains (ofList t xs) x = LSeq.contains xs x := by
-  simp [contains, LSeq.contains]
-theorem containsValue_ofList (cmp : Nat → Nat → Int) (xs : List Nat) (x : Nat) :
-    containsValue cmp (ofList t xs) x = LSeq.containsValue cmp xs x := by
-  simp [containsValue, LSeq.containsValue]
-theorem indexOf_ofList (cmp : Nat → Nat → Int) (xs : List Nat) (x : Nat) :
-    indexOf cmp (ofList t xs) x = LSeq.indexOf cmp xs x := by
-  simp only [indexOf, LSeq.indexOf, forward_ofList]
-  cases xs.findIdx? fun y => cmp y x == 0 <;> rfl
-theorem foreach_ofList (xs : List Nat) : foreach (ofList t xs) = xs := by simp [foreach]
+theorem contains_ofList (xs : List Nat) (x : Nat) (m : Mem) : contains (ofList t xs) x m = (LSeq.contains xs x, m) := by
+  simp only [contains, LSeq.contains, ofList_nodes]
+  rw [ofList_head_ptrAt, countLoop_ofList xs _ m xs.length 0 0 (by omega)]
+  simp [List.count]
+theorem containsValue_ofList (cmp : Nat → Nat → Int) (xs : List Nat) (x : Nat) (m : Mem) :
+    containsValue cmp (ofList t xs) x m = (LSeq.containsValue cmp xs x, m) := by
+  simp only [containsValue, LSeq.containsValue, ofList_nodes]
+  rw [ofList_head_ptrAt, countLoop_ofList xs _ m xs.length 0 0 (by omega)]
+  simp
+theorem indexOf_ofList (cmp : Nat → Nat → Int) (xs : List Nat) (x : Nat) (m : Mem) :
+    indexOf cmp (ofList t xs) x m = ((LSeq.indexOf cmp xs x).1, (LSeq.indexOf cmp xs x).2, m) := by
+  simp only [indexOf, LSeq.indexOf, ofList_nodes]
+  rw [ofList_head_ptrAt, indexLoop_ofList xs _ m xs.length 0 0 (by omega)]
+  simp only [List.drop_zero]
+  cases xs.findIdx? fun y => cmp y x == 0 <;> simp
+theorem foreach_ofList (xs : List Nat) (m : Mem) : foreach (ofList t xs) m = (xs, m) := by
+  simp only [foreach, ofList_nodes]
+  rw [ofList_head_ptrAt, foreachLoop_ofList xs m xs.length 0 (by omega)]
+  simp
